@@ -1,9 +1,5 @@
 CONSTANTS
-  NH = 3
-  NL = 2
-  MaxTrig = 2
-  Fams = {"reent", "gate", "link", "max", "pool"}
-  MaxMax = 2
+  Scope = "mc"
 INVARIANTS TypeOK MaxCount
 PROPERTIES OncePerTrigger NoCallAfterUnhook Complete InOrder LinkExclusive
 VIEW MCView
